@@ -97,8 +97,10 @@ async fn group_by_keys(stream: BoxedExecutor, keys_expr: RecExpr) {
         let input = input?;
         let keys = Evaluator::new(&keys_expr).eval_list(&input)?;
         for (row, keys) in input.rows().zip(keys.rows()) {
-            if keys != &current_key {
-                let output_keys = std::mem::replace(&mut current_key, keys.to_owned());
+            // the two inputs' keys are compared with each other: by value (see `join_key`)
+            let keys: Row = keys.values().map(join_key).collect();
+            if keys != current_key {
+                let output_keys = std::mem::replace(&mut current_key, keys);
                 let output_rows = std::mem::take(&mut output_rows);
                 if !output_keys.is_empty() {
                     yield (output_keys, output_rows);
